@@ -66,6 +66,8 @@ type faultSpec struct {
 	Mode    string `json:"mode"` // before | after
 	K       int    `json:"k,omitempty"`
 	Persist int    `json:"persist,omitempty"`
+	// Err names the error VALUE the fault returns (fakech.CtrlErrorKinds; "" = a plain error).
+	Err string `json:"err,omitempty"`
 }
 
 type updCase struct {
@@ -423,6 +425,8 @@ func predUpdate(c updCase, o *evid.Obs) error {
 		return fakech.CtrlFailBefore
 	}
 	disarmed := false
+	kindOf := map[*fakech.CtrlCall]string{}
+	conn.FaultErr = func(cl *fakech.CtrlCall) error { return fakech.CtrlPanelError(kindOf[cl], cl) }
 	conn.Decide = func(cl *fakech.CtrlCall) fakech.CtrlFaultMode {
 		if disarmed {
 			return fakech.CtrlNoFault
@@ -451,6 +455,7 @@ func predUpdate(c updCase, o *evid.Obs) error {
 				if (f.Persist > 0 && attempt < f.Run+f.Persist) || (f.Persist <= 0 && st.failed < k) {
 					st.failed++
 					fired = append(fired, cl)
+					kindOf[cl] = f.Err
 					return mode(f)
 				}
 				continue
@@ -461,6 +466,7 @@ func predUpdate(c updCase, o *evid.Obs) error {
 			hit := (f.By == "mig" && mig && f.At == migSeen) || (f.By != "mig" && f.At == cl.Index)
 			if hit {
 				fired = append(fired, cl)
+				kindOf[cl] = f.Err
 				return mode(f)
 			}
 		}
@@ -537,6 +543,21 @@ func predUpdate(c updCase, o *evid.Obs) error {
 		}
 	}
 	for _, f := range fired {
+		ek := kindOf[f]
+		if ek == "" {
+			ek = "plain"
+		}
+		o.Tag("error:" + ek)
+		if !f.Query && f.Stmt.Kind == "rename" {
+			o.Tag("non-rerunnable-kind:rename@" + string(f.Fault))
+		}
+		if !f.Query && f.Stmt.Kind == "alter" {
+			for _, cmd := range f.Stmt.Cmds {
+				if cmd.Op == "modify_order_by" {
+					o.Tag("non-rerunnable-kind:modify-order-by@" + string(f.Fault))
+				}
+			}
+		}
 		o.Tag("fault:" + string(f.Fault) + "@" + stmtClass(f))
 		if !f.Query && (f.Stmt.NonIdempotent() || isVerWrite(f)) {
 			o.NonTrivial()
@@ -775,11 +796,36 @@ func enumerateSingle(yield func(updCase)) {
 			n = 1 // the predicate reports the reference failure
 		}
 		for i := 0; i < n; i++ {
-			for _, m := range []string{"before", "after"} {
-				yield(updCase{Cfg: cfg, Faults: []faultSpec{{Run: 0, By: "call", At: i, Mode: m}}})
+			for mi, m := range []string{"before", "after"} {
+				// every call × mode is enumerated; the error value rotates through the panel
+				// (the full call × mode × error-value grid is the sub-check fault-error-values)
+				ek := fakech.CtrlErrorKinds[(i+5*mi)%len(fakech.CtrlErrorKinds)]
+				yield(updCase{Cfg: cfg, Faults: []faultSpec{{Run: 0, By: "call", At: i, Mode: m, Err: ek}}})
 			}
 		}
 	}
+}
+
+// enumerateErrors: every call × {before, after} × every error value of the panel × 4 modes.
+func enumerateErrors(yield func(updCase)) {
+	for _, cfg := range enumCfgs {
+		ref := getReference(cfg)
+		n := len(ref.calls)
+		if ref.err != nil {
+			n = 1
+		}
+		for i := 0; i < n; i++ {
+			for _, m := range []string{"before", "after"} {
+				for _, ek := range fakech.CtrlErrorKinds {
+					yield(updCase{Cfg: cfg, Faults: []faultSpec{{Run: 0, By: "call", At: i, Mode: m, Err: ek}}})
+				}
+			}
+		}
+	}
+}
+
+func addErrors(r *evid.Run) {
+	evid.Add(r, evid.Prop[updCase]{Name: "fault-error-values", Quick: 600, Thorough: 0, Enumerate: enumerateErrors, Pred: predUpdate})
 }
 
 func addSingle(r *evid.Run) {
@@ -798,9 +844,10 @@ func enumerateSeq(yield func(updCase)) {
 		for i := 0; i < n; i++ {
 			for _, m := range []string{"before", "after"} {
 				for k := 1; k <= 5; k++ {
-					yield(updCase{Cfg: cfg, Faults: []faultSpec{{Run: 0, By: "stmt", At: i, Mode: m, K: k}}})
+					ek := fakech.CtrlErrorKinds[(i+k)%len(fakech.CtrlErrorKinds)]
+					yield(updCase{Cfg: cfg, Faults: []faultSpec{{Run: 0, By: "stmt", At: i, Mode: m, K: k, Err: ek}}})
 				}
-				yield(updCase{Cfg: cfg, Faults: []faultSpec{{Run: 0, By: "stmt", At: i, Mode: m, Persist: 1}}})
+				yield(updCase{Cfg: cfg, Faults: []faultSpec{{Run: 0, By: "stmt", At: i, Mode: m, Persist: 1, Err: fakech.CtrlErrorKinds[i%len(fakech.CtrlErrorKinds)]}}})
 			}
 		}
 	}
@@ -835,7 +882,8 @@ func genMulti(rt *rapid.T) updCase {
 	nf := rapid.IntRange(1, 3).Draw(rt, "nfaults")
 	run := 0
 	for i := 0; i < nf; i++ {
-		f := faultSpec{Run: run, Mode: rapid.SampledFrom([]string{"before", "after"}).Draw(rt, "fmode")}
+		f := faultSpec{Run: run, Mode: rapid.SampledFrom([]string{"before", "after"}).Draw(rt, "fmode"),
+			Err: rapid.SampledFrom(fakech.CtrlErrorKinds).Draw(rt, "errkind")}
 		if i == 0 {
 			f.By = "call"
 			if len(hot) > 0 && rapid.IntRange(0, 2).Draw(rt, "hot") == 0 {
